@@ -316,7 +316,8 @@ extern "C" fn h_probe_stack_body(p: u64, tag: u64, c: u64, _d: u64, _e: u64) -> 
             // (the fixed-metadata VM, whose executions take `&mut self`, is left out)
             let vm = unsafe { &*(vm as *const AnyVm) };
             let engine = Engine::ALL[engine as usize];
-            unsafe {
+            // (a panic of the nested execution must not cross this extern "C" frame)
+            let _ = std::panic::catch_unwind(std::panic::AssertUnwindSafe(|| unsafe {
                 let _ = match (vm, engine) {
                     (AnyVm::Mbuff(vm), Engine::Interp) => vm.execute_program(pkt.slice(), mb.slice()),
                     (AnyVm::Mbuff(vm), Engine::Jit) => vm.execute_program_jit(pkt.slice(), mb.slice()),
@@ -329,7 +330,7 @@ extern "C" fn h_probe_stack_body(p: u64, tag: u64, c: u64, _d: u64, _e: u64) -> 
                     (AnyVm::NoData(vm), Engine::Cl) => vm.execute_program_cranelift(),
                     (AnyVm::Fixed(_), _) => Ok(0),
                 };
-            }
+            }));
             tls(|t| t.reenter_depth -= 1);
         }
     }
@@ -347,9 +348,11 @@ extern "C" fn h_probe_stack_body(p: u64, tag: u64, c: u64, _d: u64, _e: u64) -> 
             v.extend_from_slice(&crate::progs::ins(crate::progs::EXIT, 0, 0, 0, 0));
             v
         });
-        if let Ok(vm) = rbpf::EbpfVmNoData::new(Some(prog)) {
-            let _ = vm.execute_program();
-        }
+        let _ = std::panic::catch_unwind(|| {
+            if let Ok(vm) = rbpf::EbpfVmNoData::new(Some(prog)) {
+                let _ = vm.execute_program();
+            }
+        });
     }
     clobber_scratch();
     0
